@@ -167,3 +167,7 @@ Proof.
   destruct (dec_ops dec_op r []) as [ops|]; [|reflexivity].
   rewrite gring_case_ring_case. destruct (ring_case c ops); reflexivity.
 Qed.
+
+(* in-kernel anchor: the generated code computes (same case as Run/C10.v anchor_ring) *)
+Example anchor_ring_code : entry_code 0 [0; 3; -1; 0;5; 0;6; 1;0; 7;5; 8;9; 3;0; 6;0; 10;0] = [1; 1; 1; 5; 1; 2; 5; 7; 0; 1; 6; 9; 0; 0; 0].
+Proof. vm_compute. reflexivity. Qed.
